@@ -154,6 +154,11 @@ Definition obs_of (c : ctx) : option nat := if snd c then fst c else None.
 Definition obs_is (c : ctx) (k : nat) : bool :=
   match obs_of c with Some o => Nat.eqb o k | None => false end.
 
+(* a signal or memo whose arena item was disposed (or whose owner was cleaned up): the value and
+   the subscriber set are gone, every Weak pointer to it is dead.  The flag is kept in [edone]
+   ("finished" for the task of an effect; for a signal / memo: disposed). *)
+Definition sgone (n : node) : bool := edone n.
+
 Section Prog.
 Variable p : prog.
 Definition decl_of (i : nat) : decl := nth i p (DSig false 0).
@@ -207,7 +212,8 @@ Definition notify_sig (j : nat) (s : state) : state :=
   let s := add_cause j s in
   fold_left (fun s k => mark_dirty k s) (subs (getn s j)) s.
 Definition write_sig (j : nat) (v : Z) (s : state) : state :=
-  notify_sig j (updn j (fun n => set_sval n v) s).
+  if sgone (getn s j) then s          (* set on a disposed signal: nothing happens *)
+  else notify_sig j (updn j (fun n => set_sval n v) s).
 
 (* ------------------------------------------------------------------ pull phase *)
 (* Track::track *)
@@ -216,6 +222,17 @@ Definition track (c : ctx) (j : nat) (s : state) : state :=
   | Some o =>
       let s := updn o (fun n => set_srcs n (srcs n ++ [j])) s in
       updn j (fun n => set_subs n (subscribe (subs n) o)) s
+  | None => s
+  end.
+(* Track::track on a disposed source returns at once and try_read gives None (the harness reads
+   it as 0).  The model keeps the read in the source list as a DEAD source, without a
+   subscriber edge: a dead source answers "unchanged" to update_if_necessary
+   (graph/source.rs: the Weak does not upgrade), is never marked and never notifies, so it
+   behaves like no source at all; keeping it makes the source list the tracked part of the
+   read log in all cases. *)
+Definition track_dead (c : ctx) (j : nat) (s : state) : state :=
+  match obs_of c with
+  | Some o => updn o (fun n => set_srcs n (srcs n ++ [j])) s
   | None => s
   end.
 (* ghost read log of the running body + the observable event *)
@@ -299,7 +316,8 @@ Definition memo_update (c : ctx) (i : nat) (cm : cmp) (e : expr) (s : state) : s
 
 Definition node_update (c : ctx) (i : nat) (s : state) : state * bool :=
   match decl_of i with
-  | DMemo cm e => memo_update c i cm e s
+  | DMemo cm e => if sgone (getn s i) then (s, false)       (* AnySource: dead Weak => false *)
+                  else memo_update c i cm e s
   | _ => (s, false)
   end.
 
@@ -308,10 +326,16 @@ Definition node_read (m : bool) (c : ctx) (i : nat) (s : state) : state * Z :=
   let t := m && snd c in
   match decl_of i with
   | DSig _ _ =>
+      if sgone (getn s i) then
+        (log_read c i 0 t true (if m then track_dead c i s else s), 0)
+      else
       let s := if m then track c i s else s in
       let v := sval (getn s i) in
       (log_read c i v t true s, v)
   | DMemo cm e =>
+      if sgone (getn s i) then
+        (log_read c i 0 t true (if m then track_dead c i s else s), 0)
+      else
       let s := if m then track c i s else s in
       let '(s, _) := memo_update c i cm e s in
       let v := cache_val (getn s i) in
